@@ -266,6 +266,49 @@ def matrix_cases(v: str, ftable, full_pool: bool = False) -> list[tuple[str, str
     return out
 
 
+# ------------------------------------------------------------ declared-type matrix (inline functions)
+ABSTRACT_TYPES = ['anyAtomicType', 'anySimpleType', 'anyType', 'untyped', 'numeric', 'error', 'dateTimeStamp',
+                  'NMTOKENS', 'IDREFS', 'ENTITIES', 'nothing']
+OTHER_TYPES = ['item()', 'node()', 'element()', 'attribute()', 'text()', 'document-node()', 'empty-sequence()',
+               'function(*)', 'function(xs:integer) as xs:integer', 'map(*)', 'array(*)', 'element(b)', 'p:t']
+TYPE_ARGS = ["'a'", '1', '1.5', '1e0', '()', "(1, 'a')", '/a/b', "xs:untypedAtomic('5')", 'true()',
+             "xs:date('2001-01-01')", 'abs#1']
+
+
+def all_type_names(parser_classes) -> list[str]:
+    """every atomic type name that has a constructor token in ANY parser version, plus the abstract /
+    special names of XSD (so that a name known to one version only is tried with the others)"""
+    names = set(ABSTRACT_TYPES)
+    for cls in parser_classes:
+        for key, tk in cls.symbol_table.items():
+            if 'constructor' in str(getattr(tk, 'label', '')):
+                names.add(tk.symbol)
+    return sorted(names)
+
+
+def typed_function_cases(v: str, type_names: list[str], full: bool) -> list[tuple[str, str]]:
+    if v < '3.0':
+        return []
+    out = []
+    occs = ['', '?', '*', '+'] if full else ['', '*']
+    args = TYPE_ARGS if full else TYPE_ARGS[:7]
+    types = ['xs:' + n for n in type_names] + OTHER_TYPES
+    for t in types:
+        for occ in occs:
+            if t == 'empty-sequence()' and occ:
+                continue
+            ty = (f'({t})' if ' as ' in t and occ else t) + occ
+            for a in args:
+                out.append((f'function($x as {ty}) {{ $x }}({a})', 'matrix-typed-fn'))
+                out.append((f'function($x) as {ty} {{ $x }}({a})', 'matrix-typed-fn'))
+                out.append((f'function($x as {ty}) as {ty} {{ $x + 1 }}({a})', 'matrix-typed-fn'))
+            out.append((f'let $f := function($x as {ty}, $y as {ty}) as {ty} {{ ($x, $y) }} return $f(1, \'a\')', 'matrix-typed-fn'))
+            out.append((f'for-each((1, \'a\', /a/b), function($x as {ty}) {{ $x }})', 'matrix-typed-fn'))
+            out.append((f'function($x as {ty}) {{ $x }}(?)(1)', 'matrix-typed-fn'))
+            if v >= '3.1':
+                out.append((f'1 => (function($x as {ty}) {{ $x }})()', 'matrix-typed-fn'))
+    return out
+
 # ------------------------------------------------------------------------ collation matrix
 UCA = 'http://www.w3.org/2013/collation/UCA'
 COLLATIONS = [
